@@ -15,7 +15,7 @@ use serde_json::{json, Value};
 
 const RULE: &str = "literals: (1) exhaustive single-placeholder derivations of the std::fmt grammar \
 (9 args x 10 fill/align x 3 sign x # x 0 x 6 widths x 6 precisions x 11 types x 5 trailing-ws (incl. U+3000), with and without ':' for empty specs), \
-(2) one-edit neighbours of a seeded sample of (1), (3) all strings up to a length bound over a 28-symbol alphabet with 1-4 byte chars, \
+(1b) integers of every magnitude (3 digits .. beyond usize) as index / width / precision / `N$` parameter, (1c) whitespace between argument and colon over a reduced spec product, (2) one-edit neighbours of a seeded sample of (1), (3) all strings up to a length bound over a 28-symbol alphabet with 1-4 byte chars, \
 (4) proptest sequences of placeholders/text/escapes, (5) corpus. Oracle: rustc_parse_format via fmtref. \
 Non-trivial = std accepts it and it has >=1 placeholder, or std rejects it and it is within one edit of an accepted literal / derive_more's parser accepts it; distinct by literal text";
 
@@ -66,6 +66,69 @@ pub fn enumerate_grammar() -> Vec<String> {
                                             out.push(format!("{{{a}{x}}}"));
                                         }
                                         out.push(format!("{{{a}:{spec}{x}}}"));
+                                    }
+                                }
+                            }
+                        }
+                    }
+                }
+            }
+        }
+    }
+    out
+}
+
+/// Integers beyond the small ones of `enumerate_grammar` in every position an integer can take (argument index, width,
+/// precision, `N$` parameters): three digits, the `u16` limit std puts on counts, the `usize` limit of derive_more's own
+/// `integer()` parser (beyond it that parser gives up on the whole literal), and one past each.
+pub fn enumerate_big_integers() -> Vec<String> {
+    let ints = ["99", "100", "255", "256", "300", "1000", "65535", "65536", "99999", "4294967295", "4294967296", "18446744073709551615", "18446744073709551616", "99999999999999999999999999", "007", "0000000000000000000000000001"];
+    let tys = ["", "?", "x", "x?", "e"];
+    let mut out = vec![];
+    for n in ints {
+        for t in tys {
+            let colon = if t.is_empty() { "" } else { ":" };
+            out.push(format!("{{{n}{colon}{t}}}"));
+            out.push(format!("{{:{n}{t}}}"));
+            out.push(format!("{{:0{n}{t}}}"));
+            out.push(format!("{{:<{n}{t}}}"));
+            out.push(format!("{{:.{n}{t}}}"));
+            out.push(format!("{{:{n}.{n}{t}}}"));
+            out.push(format!("{{:{n}${t}}}"));
+            out.push(format!("{{:.{n}${t}}}"));
+            out.push(format!("{{a:{n}{t}}}"));
+            out.push(format!("{{0:{n}$.{n}${t}}}"));
+            out.push(format!("{{}}{{:{n}{t}}}{{}}"));
+        }
+    }
+    out
+}
+
+/// Whitespace between the argument and the colon (`{a :x}`, `{0\n:>5}`, `{ :?}`): std::fmt skips it, like the whitespace
+/// before the closing brace. Systematic over a reduced spec product.
+pub fn enumerate_ws_before_colon() -> Vec<String> {
+    let args = ["", "0", "1", "12", "a", "_a", "é", "क्ष", "a²"];
+    let wsc = [" ", "\n", "  ", "\u{3000}"];
+    let fa = ["", "<", "*<", " >"];
+    let sign = ["", "+"];
+    let alt = ["", "#"];
+    let zero = ["", "0"];
+    let width = ["", "5", "w$", "0$"];
+    let prec = ["", ".3", ".*", ".p$"];
+    let ws = ["", " "];
+    let mut out = vec![];
+    for a in args {
+        for c in wsc {
+            for f in fa {
+                for s in sign {
+                    for al in alt {
+                        for z in zero {
+                            for w in width {
+                                for p in prec {
+                                    for t in TYPES {
+                                        for x in ws {
+                                            out.push(format!("{{{a}{c}:{f}{s}{al}{z}{w}{p}{t}{x}}}"));
+                                        }
                                     }
                                 }
                             }
@@ -387,12 +450,18 @@ fn process(lits: &[String], refs: &[RefParse], source: &str, do_b: bool, sample_
             } else {
                 // std rejects
                 let d = dm::guarded(|| dm_view(lit)).ok().flatten();
-                if let Some(dv) = d {
+                let bare = d.as_ref().is_some_and(|dv| dv.len() == 1 && !dv[0].has_modifiers());
+                if d.is_some() {
                     nontrivial = true;
-                    if dv.len() == 1 && !dv[0].has_modifiers() {
-                        if let Some((e, o)) = reject_check(lit) {
-                            viol = Some(("reject", e, o));
-                        }
+                }
+                // The delegation decision has its own entry into the parser (`parsing::format()` + "nothing left"), so it
+                // is probed for every rejected literal that begins like a placeholder — whatever
+                // `format_string()` (observed through `dm_view`) says about it. Sound for *every* literal std rejects: an
+                // expansion that succeeds has to hand the literal to the formatting macro.
+                if bare || lit.starts_with('{') {
+                    if let Some((e, o)) = reject_check(lit) {
+                        viol = Some(("reject", e, o));
+                        nontrivial = true;
                     }
                 }
             }
@@ -476,6 +545,17 @@ pub fn run(ctx: &Ctx) -> Report {
     run_set(&mut rep, gb.into_iter().map(|x| x.1).collect(), "grammar", true, 150_001);
     run_set(&mut rep, ga.into_iter().map(|x| x.1).collect(), "grammar", false, 400_003);
     rep.evidence.set("grammar_derivations_enumerated", json!(glen));
+
+    // (1b) integers of every magnitude in every integer position; (1c) whitespace before the colon
+    let bi = enumerate_big_integers();
+    rep.evidence.set("big_integer_literals_enumerated", json!(bi.len()));
+    run_set(&mut rep, bi, "big_integer", true, 97);
+    let wc = enumerate_ws_before_colon();
+    rep.evidence.set("ws_before_colon_literals_enumerated", json!(wc.len()));
+    let wstride = ctx.tier.pick(8, 1);
+    let (wb, wa): (Vec<(usize, String)>, Vec<(usize, String)>) = wc.into_iter().enumerate().partition(|(i, _)| (i + offset) % wstride == 0);
+    run_set(&mut rep, wb.into_iter().map(|x| x.1).collect(), "ws_before_colon", true, 40_009);
+    run_set(&mut rep, wa.into_iter().map(|x| x.1).collect(), "ws_before_colon", false, 150_001);
 
     // (2) one-edit neighbours of a seeded sample of (1)
     let g = enumerate_grammar();
